@@ -68,9 +68,11 @@ def _compound_case(keys, dens_kind, wl_kind):
             dens = rho
         else:
             kw['natural_density'] = rho
-            # the natural_density -> density conversion is C12's subject; here the density the
-            # formula itself reports is used, so C03 does not inherit C12's findings
-            dens = formulas.formula(f, natural_density=rho).density
+            # natural density -> density at unchanged cell volume: every isotope replaced by its natural element, charges
+            # kept (independent of the library's own conversion, which is C12's subject and is checked there)
+            from .c12 import natural_counterpart_mass
+            from .c02 import oracle_mass
+            dens = rho * sum(c * oracle_mass(a) for c, a in zip(counts, atoms)) / sum(c * natural_counterpart_mass(a) for c, a in zip(counts, atoms))
         if wl_kind == 'wavelength':
             lam = E.real('lam', lo=0.05, hi=50)
             kw['wavelength'] = lam
